@@ -78,11 +78,11 @@ def main():
         env = dict(ENV, VERIF_REPO=d)
         props = [prop]
         if allchecks:
-            props = subprocess.run(['/verif/bin/crverif', '-list'], capture_output=True, text=True).stdout.split()
+            props = subprocess.run([os.environ.get('CRVERIF_BIN', '/verif/bin/crverif'), '-list'], capture_output=True, text=True).stdout.split()
         det = {}
         for p in props:
             ev = tempfile.mkdtemp(prefix='ev-', dir='/tmp')
-            r = subprocess.run(['/verif/bin/crverif', '-property', p, '-evidence', ev], env=env, capture_output=True, text=True)
+            r = subprocess.run([os.environ.get('CRVERIF_BIN', '/verif/bin/crverif'), '-property', p, '-evidence', ev], env=env, capture_output=True, text=True)
             lines = [l for l in (r.stdout + r.stderr).splitlines() if 'rule=' in l and 'KNOWN' not in l]
             det[p] = {'exit': r.returncode, 'rules': sorted(set(l.split('rule=')[1].split()[0] + ' ' + l.split('construct=')[1].split('" ')[0] + '"' for l in lines if 'construct=' in l))[:6]}
             shutil.rmtree(ev, ignore_errors=True)
